@@ -52,6 +52,23 @@ theorem evaluated_only_if_whitelisted (wl : List String) (cfg : EvalCfg) (e : Py
   | none => exact (check_none_iff wl e).mp hc
   | some k => simp [hc] at h
 
+/-- `history_independent`: in a history of calls made in one process (any evaluators, texts and
+variables before and after), the answer to a call is the answer it gets on its own — in particular
+an expression accepted earlier by a more permissive evaluator is still checked against the
+whitelist of the evaluator that is called now. -/
+theorem history_independent (cfg : EvalCfg) (before after : List Call) (c : Call) :
+    (runSeq cfg (before ++ c :: after))[before.length]? = some (run c.wl cfg c.tree c.vars) := by
+  simp [runSeq, runCall]
+
+/-- ... hence a text with a non-whitelisted node is rejected by a strict evaluator whatever was
+evaluated before, e.g. the same text on an evaluator that accepts it. -/
+theorem rejected_after_any_history (cfg : EvalCfg) (before after : List Call) (wl : List String)
+    (e : PyExpr) (vars : Vars) (h : ∃ n ∈ nodes e, allowed wl n.kind = false) :
+    ∃ k, allowed wl k = false ∧
+      (runSeq cfg (before ++ ⟨wl, some e, vars⟩ :: after))[before.length]? = some (.rejected k) := by
+  obtain ⟨k, hk, hr⟩ := rejected_before_evaluation wl e h
+  exact ⟨k, hk, by rw [history_independent]; exact congrArg some (hr cfg vars).1⟩
+
 /-- the source has the shape the model assumes: the visitor runs in a statement before the one
 holding `eval(...)`, whose globals are the literal `{'__builtins__': {}}` and whose locals are the
 supplied variables (all four facts are read from the live source by the translator). -/
@@ -278,6 +295,19 @@ example : ∃ k, allowed completionWhitelist k = false ∧ ∀ (cfg : EvalCfg) (
   obtain ⟨pre, n, post, e, hk, hf, _⟩ :=
     visit_reports_first completionWhitelist exEvil (k := "Call") (by decide +kernel)
   exact rejected_before_evaluation _ _ ⟨n, by rw [e]; simp, hk ▸ hf⟩
+/-- `succeeded.real`-like history: the evil text first on an evaluator that accepts everything
+(`AST` whitelisted), then on `CompletionEvaluator`: still rejected at the call -/
+example : ∃ k, allowed completionWhitelist k = false ∧
+    (runSeq liveCfg ([⟨["AST"], some exEvil, [("succeeded", true)]⟩] ++
+      ⟨completionWhitelist, some exEvil, [("succeeded", true)]⟩ :: []))[1]? = some (.rejected k) := by
+  obtain ⟨pre, n, post, e, hk, hf, _⟩ :=
+    visit_reports_first completionWhitelist exEvil (k := "Call") (by decide +kernel)
+  exact rejected_after_any_history liveCfg [⟨["AST"], some exEvil, [("succeeded", true)]⟩] []
+    completionWhitelist exEvil [("succeeded", true)] ⟨n, by rw [e]; simp, hk ▸ hf⟩
+example : check ["AST"] exEvil = none := by decide +kernel
+example : (runSeq liveCfg [⟨["AST"], some exGood, []⟩, ⟨completionWhitelist, some exGood, [("succeeded", false), ("failed", true)]⟩])[1]?
+    = some (run completionWhitelist liveCfg (some exGood) [("succeeded", false), ("failed", true)]) :=
+  history_independent liveCfg [⟨["AST"], some exGood, []⟩] [] ⟨completionWhitelist, some exGood, [("succeeded", false), ("failed", true)]⟩
 example : run completionWhitelist liveCfg (some exGood) [("succeeded", true), ("x", false), ("failed", true)]
     = .evaluated (.value (.var "failed") ["succeeded", "x"]) := by decide +kernel
 example : ∀ n ∈ nodes exGood, allowed completionWhitelist n.kind = true :=
